@@ -24,7 +24,7 @@ from vcdd.oracle.ircmp import canon
 KINDS = ("function_parse_partial", "emit_class", "emit_function", "emit_argparse", "emit_sqlalchemy", "emit_docstring",
          "json_schema", "infer_imports", "merge_assignment_lists", "gen_file", "gen_file_imports", "doctrans",
          "openapi", "class_parse", "sync_properties", "optimise_imports", "emit_sqlalchemy_custom", "docstring_parse",
-         "function_parse_footer", "gen_phase1", "json_schema_set_default")
+         "function_parse_footer", "gen_phase1", "json_schema_set_default", "gen_file_infer", "gen_dir")
 
 # a small shared pool of type names the converters have no table entry for: a later case meets names an earlier
 # (or an interleaved, unrelated) conversion has already seen - what a module-level table that learns would change
@@ -79,8 +79,8 @@ def partial_function(r):
     return 'def foo(%s):\n    """%s"""\n    return None\n' % (", ".join(sig), doc)
 
 
-def class_module(r, n=None):
-    names = r.sample(["Alpha", "Beta", "Gamma", "Delta", "Conf"], n or r.randint(1, 4))
+def class_module(r, n=None, names=None):
+    names = names or r.sample(["Alpha", "Beta", "Gamma", "Delta", "Conf"], n or r.randint(1, 4))
     out = ["from typing import Optional, Literal, List, Union\n"]
     for nm in names:
         ir = irgen.rand_ir(r, nparams=r.randint(1, 5), type_kinds=("int", "float", "str", "bool", "optional", "literal", "list"),
@@ -174,6 +174,31 @@ def run_case(kind, r, tmp):
         mod = ast.parse("__all__ = %r\nx = 1\n__all__ += %r\n" % (a, b))
         au.merge_assignment_lists(mod, "__all__")
         return ast.unparse(mod)
+    if kind in ("gen_file_infer", "gen_dir"):
+        # `gen --parse infer` on a file, and `gen` on a directory of files (every file of it is read by the same
+        # interpreter: what the first read leaves behind must not change what the next one finds)
+        import cdd.compound.gen
+
+        if kind == "gen_dir":
+            inp = os.path.join(tmp, "pkg_%d" % r.randint(0, 10 ** 9))
+            os.mkdir(inp)
+            pools = [["Alpha", "Beta"], ["Gamma"], ["Delta", "Conf"]][: r.randint(2, 3)]
+            for n, pool in enumerate(pools):
+                with open(os.path.join(inp, "%s_%d.py" % (r.choice(("models", "conf", "part")), n)), "w") as f:
+                    f.write(class_module(r, names=pool))
+            outp = inp + "_out.py"
+            parse_name = r.choice(("infer", "class"))
+        else:
+            inp = os.path.join(tmp, "inf_%d.py" % r.randint(0, 10 ** 9))
+            with open(inp, "w") as f:
+                f.write(class_module(r))
+            outp, parse_name = inp.replace("inf_", "outf_"), "infer"
+        emit_name = r.choice(("class", "argparse", "sqlalchemy", "pydantic"))
+        cdd.compound.gen.gen(name_tpl="{name}" if emit_name.startswith("sqlalchemy") else "{name}Gen", input_mapping=inp,
+                             parse_name=parse_name, emit_name=emit_name, output_filename=outp,
+                             emit_and_infer_imports=r.random() < 0.5)
+        with open(outp) as f:
+            return f.read()
     if kind in ("gen_file", "gen_file_imports"):
         import cdd.compound.gen
 
@@ -249,7 +274,7 @@ def unrelated(r, tmp):
         elif k == "wide":
             # any conversion of the bundle's own domain, on other data
             run_case(r.choice([x for x in KINDS if x not in ("gen_file", "gen_file_imports", "doctrans",
-                                                             "sync_properties")]), r, tmp)
+                                                             "sync_properties", "gen_dir")]), r, tmp)
         elif k == "sqlalchemy":
             hops.hop(irgen.rand_ir(r, nparams=3, type_kinds=("int", "str")), "sqlalchemy")
         elif k == "openapi":
